@@ -33,7 +33,7 @@ CgroupContext __CPROVER_uninterpreted_elem_sorted(uint64_t i);
 uint64_t g_copy_vid, g_copy_src, g_s0, g_w, g_pw; _Bool g_copied, g_sorted;
 vec_CgroupContext vec_CgroupContext__copy(vec_CgroupContext v)
 { vec_CgroupContext r;   /* the latest copy is the one that may be permuted in place */ r.vid = nondet_u64(); __CPROVER_assume(r.vid != v.vid); r.n = v.n;
-  g_copied = 1; g_copy_vid = r.vid; g_copy_src = v.vid; return r; }
+  g_copied = 1; g_sorted = 0; g_copy_vid = r.vid; g_copy_src = v.vid; return r; }
 CgroupContext vec_CgroupContext__elem(uint64_t vid, uint64_t i)
 { if (g_copied && vid == g_copy_vid) return g_sorted ? __CPROVER_uninterpreted_elem_sorted(i) : ELEM(g_copy_src, i); return ELEM(vid, i); }
 
@@ -41,7 +41,7 @@ CgroupContext vec_CgroupContext__elem(uint64_t vid, uint64_t i)
 #define KEY_PRE(k, c) 1      /* the key functor is total (never throws) */
 #endif
 #define SORT_CONTRACT(k) \
-  __CPROVER_requires(cgroups.n <= VEC_MAX && !g_sorted && ghost_exc == 0) \
+  __CPROVER_requires(cgroups.n <= VEC_MAX && ghost_exc == 0) \
   /* no try/catch around the sort: the key functor must be defined on every element handed in */ \
   __CPROVER_requires(g_w >= cgroups.n || KEY_PRE(k, ELEM(cgroups.vid, g_w))) /*@C09,C10*/ \
   __CPROVER_requires(g_w >= cgroups.n || (KEY_OK(KEYF(k, ELEM(cgroups.vid, g_w))))) \
